@@ -298,11 +298,11 @@ fn tokenize_include(
         } else if state == 0 && c == b'"' {
             // start a quoted filename
             state = 2;
-        } else if state == 2 && tokenizer::is_pathchar(c) {
+        } else if state == 2 && is_quoted_pathchar(c) {
             // first byte of a quoted filename
             state = 3;
             fname_idx_start = *bytepos;
-        } else if state == 3 && tokenizer::is_pathchar(c) {
+        } else if state == 3 && is_quoted_pathchar(c) {
             // in a quoted filename
         } else if state == 3 && c == b'"' {
             // end of non quoted filename
@@ -335,6 +335,13 @@ fn tokenize_include(
     } else {
         Err(format!("failed reading {}", incpathref.display()))
     }
+}
+
+// is_quoted_pathchar()
+// a quoted filename can contain any character that is valid in a path (e.g. '-', ' ', ':', non-ascii characters),
+// it only ends at the closing quote. '\0' stands for the end of the input here.
+fn is_quoted_pathchar(c: u8) -> bool {
+    c != b'"' && c != b'\0' && c != b'\r' && c != b'\n'
 }
 
 fn tokenize_number(input: &str, bytepos: &mut usize) -> Result<TokenType, String> {
